@@ -655,7 +655,7 @@ func (in *Interp) indexAddr(x *ssa.IndexAddr, base, idx Val) Val {
 		if kv, ok := in.ex.known[sym]; ok {
 			return Val{x: &Pointer{obj: obj, off: off + int64(kv)*esz}}
 		}
-		if n > 8192 || kindOf(x.Type().Underlying().(*types.Pointer).Elem()) != kScalar {
+		if n > 40000 || kindOf(x.Type().Underlying().(*types.Pointer).Elem()) != kScalar {
 			k := int64(in.ex.concretize(in, sym, "index into large array"))
 			return Val{x: &Pointer{obj: obj, off: off + k*esz}}
 		}
@@ -784,6 +784,22 @@ func (in *Interp) symLoad(p *Pointer, t types.Type) Val {
 		return in.fromTerm(r, t)
 	}
 	if n > 4096 {
+		// a table whose cells all hold the same value reads as that value
+		first, err := in.load(o, p.off, t)
+		if err != nil {
+			in.memFault(err)
+		}
+		same := true
+		for k := int64(1); k < n && same; k++ {
+			v, err := in.load(o, p.off+k*p.stride, t)
+			if err != nil {
+				in.memFault(err)
+			}
+			same = v.c == first.c && v.x == first.x
+		}
+		if same {
+			return first
+		}
 		in.end("unsupported", "symbolic index over %d non-constant elements in %s", n, in.where())
 	}
 	// ite chain (last element as default)
